@@ -28,6 +28,6 @@ Example C19_witness :
   let s := [97; 46; 32; 10; 7; 27; 888; 128512; 917505; 92; 35] in
   escape is_print s =
     [97; 92; 46; 92; 32; 92; 110; 92; 97; 92; 120; 49; 98; 92; 117; 48; 51; 55; 56; 128512;
-     92; 120; 123; 101; 48; 48; 48; 49; 125; 92; 92; 92; 35]
+     917505; 92; 92; 92; 35]
   /\ unescape is_word (escape is_print s) = Ok s.
 Proof. vm_compute. split; reflexivity. Qed.
